@@ -46,7 +46,7 @@ DEST_EXEMPT = {
 
 def run(ctx: Ctx):
     repo = ctx.repo
-    memo.check_memo_keys(ctx, ("compiler.", "boolopt.", "ast2logic.", "qlassfun."))
+    memo.check_memo_keys(ctx, ('compiler.', 'boolopt.', 'ast2logic.', 'qlassfun.QlassF.compile', 'qlassfun.QlassF.from_function', 'qlassfun.qlassf', 'qcircuit.qcircuitenhanced', 'qcircuit.qcircuit.'))
     ic = repo.cls(IC)
     ce = ic.methods.get("compile_expr")
     if ce is None:
